@@ -481,34 +481,8 @@ Fixpoint nodup_keys (ks : list (list value)) : bool :=
   | k :: r => negb (existsb (key_eqb k) r) && nodup_keys r
   end.
 
-(* out is an acceptable aggregate result for `base` (rows after FROM / WHERE):
-   without GROUP BY exactly one row, computed over all of base (all zeros when base is empty);
-   with GROUP BY the rows carry pairwise different grouping values, the grouping values that
-   occur in out are exactly those that occur in base, and every row is computed over the rows
-   of base that have its grouping values *)
-Definition AggSpec (sl : list derivedcol) (gb : list colref) (fs : list field)
-           (base out : list row) : Prop :=
-  match gb with
-  | [] => exists o, out = [o] /\ cells_ok sl fs base o = true
-  | _ =>
-      NoDup (map (key_of_out sl) out) /\
-      (forall k, In k (map (key_of_out sl) out) <-> In k (map (key_of_base sl fs) base)) /\
-      (forall o, In o out -> cells_ok sl fs (group_of sl fs base (key_of_out sl o)) o = true)
-  end.
-
-Definition check_agg (sl : list derivedcol) (gb : list colref) (fs : list field)
-           (base out : list row) : bool :=
-  match gb with
-  | [] => match out with [o] => cells_ok sl fs base o | _ => false end
-  | _ =>
-      nodup_keys (map (key_of_out sl) out)
-      && forallb (fun o => existsb (fun rw => key_eqb (key_of_out sl o) (key_of_base sl fs rw)) base) out
-      && forallb (fun rw => existsb (fun o => key_eqb (key_of_out sl o) (key_of_base sl fs rw)) out) base
-      && forallb (fun o => cells_ok sl fs (group_of sl fs base (key_of_out sl o)) o) out
-  end.
-
-(* the same, but an AVG cell of a group of three or more rows is not looked at (used to
-   classify the known running-average finding) *)
+(* the same cell test, but an AVG cell of a group of three or more rows only has to be an
+   integer (used to isolate the known running-average finding) *)
 Definition cell_ok_lenient (d : derivedcol) (fs : list field) (grp : list row) (v : value) : bool :=
   match dc_prim d with
   | SPAvg _ => (3 <=? List.length grp)%nat && match v with VInt _ => true | _ => false end || cell_ok d fs grp v
@@ -520,16 +494,40 @@ Fixpoint cells_ok_lenient (sl : list derivedcol) (fs : list field) (grp : list r
   | d :: sl', v :: o' => cell_ok_lenient d fs grp v && cells_ok_lenient sl' fs grp o'
   | _, _ => false
   end.
-Definition check_agg_lenient (sl : list derivedcol) (gb : list colref) (fs : list field)
+
+Definition cells_test := list derivedcol -> list field -> list row -> row -> bool.
+
+(* out is an acceptable aggregate result for `base` (rows after FROM / WHERE):
+   without GROUP BY exactly one row, computed over all of base (all zeros when base is empty);
+   with GROUP BY the rows carry pairwise different grouping values, the grouping values that
+   occur in out are exactly those that occur in base, and every row is computed over the rows
+   of base that have its grouping values *)
+Definition AggSpecG (cells : cells_test) (sl : list derivedcol) (gb : list colref) (fs : list field)
+           (base out : list row) : Prop :=
+  match gb with
+  | [] => exists o, out = [o] /\ cells sl fs base o = true
+  | _ =>
+      NoDup (map (key_of_out sl) out) /\
+      (forall k, In k (map (key_of_out sl) out) <-> In k (map (key_of_base sl fs) base)) /\
+      (forall o, In o out -> cells sl fs (group_of sl fs base (key_of_out sl o)) o = true)
+  end.
+
+Definition AggSpec := AggSpecG cells_ok.
+Definition AggSpecLenient := AggSpecG cells_ok_lenient.
+
+Definition check_agg_g (cells : cells_test) (sl : list derivedcol) (gb : list colref) (fs : list field)
            (base out : list row) : bool :=
   match gb with
-  | [] => match out with [o] => cells_ok_lenient sl fs base o | _ => false end
+  | [] => match out with [o] => cells sl fs base o | _ => false end
   | _ =>
       nodup_keys (map (key_of_out sl) out)
       && forallb (fun o => existsb (fun rw => key_eqb (key_of_out sl o) (key_of_base sl fs rw)) base) out
       && forallb (fun rw => existsb (fun o => key_eqb (key_of_out sl o) (key_of_base sl fs rw)) out) base
-      && forallb (fun o => cells_ok_lenient sl fs (group_of sl fs base (key_of_out sl o)) o) out
+      && forallb (fun o => cells sl fs (group_of sl fs base (key_of_out sl o)) o) out
   end.
+
+Definition check_agg := check_agg_g cells_ok.
+Definition check_agg_lenient := check_agg_g cells_ok_lenient.
 
 (* rows an aggregate query works on: FROM (any join tree) then WHERE, as a multiset *)
 Definition agg_input (q : select_stmt) (d : db) : option (list field * list row) :=
